@@ -33,7 +33,7 @@ func init() {
 	register(&Property{
 		ID:    "C21",
 		Level: "exploration",
-		Rule: "exhaustive: a helper process (`exitsig`, built at setup) that exits with every status 0-255 and that kills itself with each of 27 terminating signals (HUP INT QUIT ILL TRAP ABRT BUS FPE KILL USR1 SEGV USR2 PIPE ALRM TERM STKFLT XCPU XFSZ VTALRM PROF IO PWR SYS and four real-time signals), each used in 9 program shapes: alone, `h && out`, `h || out`, `try { h; out }`, as the tail of a pipeline, as the head of a trypipe pipeline, `h; exitnum`, inside a function followed by &&, and as an `if` condition; " +
+		Rule: "exhaustive: a helper process (`exitsig`, built at setup) that exits with every status 0-255 that exits with status 0 / 3 / 130 while a grandchild keeps its stdout and stderr open for two more seconds, and that kills itself with each of 27 terminating signals (HUP INT QUIT ILL TRAP ABRT BUS FPE KILL USR1 SEGV USR2 PIPE ALRM TERM STKFLT XCPU XFSZ VTALRM PROF IO PWR SYS and four real-time signals), each used in 9 program shapes: alone, `h && out`, `h || out`, `try { h; out }`, as the tail of a pipeline, as the head of a trypipe pipeline, `h; exitnum`, inside a function followed by &&, and as an `if` condition; " +
 			"oracle: exit N => the block's exit number / `exitnum` output is N and the successor runs exactly when N = 0; signal => exit number is not 0, the && / try / trypipe / then successor does not run and the || / else one does; non-trivial = every case with N != 0 or a signal; distinct by (outcome, shape)",
 		Assumptions: []string{"core dumps are disabled in the helper (RLIMIT_CORE 0)", "the helper is found through the workers' private PATH"},
 		Technique:   "runtime monitoring: exhaustive enumeration of child exit statuses and terminating signals through real process spawns, observed at the program boundary",
@@ -47,6 +47,9 @@ func init() {
 						continue // quick tier: all codes alone and with &&, every fifth code in the other shapes
 					}
 					e := c21Expect{Form: f.Name, Kind: kind, N: n, Failed: kind == "sig" || n != 0}
+					if kind == "linger" {
+						e.Kind = "exit" // judged like a plain exit with that status
+					}
 					exp, _ := json.Marshal(e)
 					cases = append(cases, &proto.Case{ID: fmt.Sprintf("c21-%s-%d-%s", kind, n, f.Name), Op: "prog", Block: fmt.Sprintf(f.Tmpl, cmd), Expect: exp, TimeoutMs: 60000})
 				}
@@ -56,6 +59,10 @@ func init() {
 			}
 			for s := range c21Signals {
 				add("sig", s)
+			}
+			// the helper exits at once while a grandchild keeps the inherited stdout / stderr open for 2 s
+			for _, n := range []int{0, 3, 130} {
+				add("linger", n)
 			}
 			x.RunAll(pool, cases)
 		},
